@@ -116,11 +116,39 @@ Definition mod_links : list (Z * Z * str * str) :=
                       | f :: rest => map (fun s => (nid_of s, nid_of f, MOD_ROLE, POST_EQ)) rest
                       | [] => [] end) reps.
 
+(* a predication that is neither a representative nor tied by /EQ links to the first
+   representative of its scope gets a MOD/EQ link to it as well (one per /EQ component);
+   repaired code, F32 *)
+Definition eq_edges (ls : list (Z * Z * str * str)) : list (Z * Z) :=
+  flat_map (fun l => let '(s, e, _, p) := l in
+                     if str_eqb p POST_EQ then [(s, e); (e, s)] else []) ls.
+
+Definition component (edges : list (Z * Z)) (x : Z) : list Z := reach Z Z.eqb edges x.
+
+Definition scope_extra (edges : list (Z * Z)) (first : Z) (members : list Z) : list (Z * Z * str * str) :=
+  snd (fold_left (fun acc x =>
+                    let '(seen, out) := acc in
+                    if existsb (Z.eqb x) seen then acc
+                    else (seen ++ component edges x, out ++ [(x, first, MOD_ROLE, POST_EQ)]))
+                 members (component edges first, [])).
+
+Definition members_of (lbl : str) : list str :=
+  map fst (filter (fun p => str_eqb (e_label (snd p)) lbl) eps).
+
+Definition extra_links : list (Z * Z * str * str) :=
+  let edges := eq_edges (flat_map fst per_arg ++ mod_links) in
+  flat_map (fun ls : str * list ep =>
+              let members := members_of (fst ls) in
+              match members, dict_get (fst ls) reps with
+              | _ :: _ :: _, Some (f :: _) => scope_extra edges (nid_of f) (map nid_of members)
+              | _, _ => []
+              end) (scope_map (m_rels m)).
+
 Definition conv_result : cres dmrs :=
   match top_of with
   | COk (top, w1) =>
       COk {| d_top := top; d_index := index_of; d_nodes := map node_of eps;
-             d_links := flat_map fst per_arg ++ mod_links;
+             d_links := flat_map fst per_arg ++ mod_links ++ extra_links;
              d_warnings := (w1 + fold_left (fun a x => (a + snd x)%nat) per_arg 0%nat)%nat |}
   | CIndexError => CIndexError
   | CInvalid => CInvalid
